@@ -1,6 +1,6 @@
 SPECIFICATION Spec
 CONSTANTS
-  Kinds <- KindsAll
+  Kinds <- Kinds6
   CleanupIds = {"c1", "c2"}
   DetailNames <- NamesNone
   Mismatches = {}
@@ -10,10 +10,10 @@ CONSTANTS
   MaxSteps = 2
   MaxTotalSteps = 2
   MaxRuns = 1
-  AllowDecor = TRUE
+  AllowDecor = FALSE
   OnExcChoices = {TRUE}
   StepOps = {"addCleanup"}
-  AllowMulti = TRUE
+  AllowMulti = FALSE
   Variant = "asRequired"
   UndoOf <- MCUndoOf
   GatherOf <- MCGatherOf
